@@ -145,7 +145,7 @@ def mirror_step(m, op):
             if op['vtype'] == 'GPV' and (op.get('curve') not in m.curves or m.curves[op['curve']]['type'] != 'HEADLOSS'):
                 return 'skip'
             if op['vtype'] in ('PRV', 'PSV', 'FCV') and (m.nodes[op['a']]['type'] != 'J' or m.nodes[op['b']]['type'] != 'J'):
-                return 'skip'      # the API refuses these valves next to a tank or reservoir (documented)
+                return 'refuse'    # the API refuses these valves next to a tank or reservoir (documented): the model must stay as it was
             m.links[op['name']] = {'type': 'valve', 'a': op['a'], 'b': op['b'], 'vtype': op['vtype'], 'curve': op.get('curve')}
         return 'ok'
     if k == 'add_source':
